@@ -53,6 +53,17 @@ class Run:
         self.notes = []
         self.t0 = time.time()
         self.extra = {}
+        self.errors = []  # AnalysisError messages of rules that could not decide
+
+    def do(self, fn, *args, **kwargs):
+        """Run one rule function ``fn(run, *args)``; an AnalysisError of one rule does not hide the others."""
+        from .model import AnalysisError
+
+        try:
+            return fn(self, *args, **kwargs)
+        except AnalysisError as err:
+            self.errors.append("%s: %s" % (getattr(fn, "__name__", "rule"), err))
+            return None
 
     # ------------------------------------------------------------------ recording
     def ok(self, rule, construct, detail="", loc=None, nontrivial=True):
